@@ -275,6 +275,23 @@ func (sc *scenario) sendRaw(a, b int, wire []byte) {
 	sc.mu.Unlock()
 }
 
+// errShape strips peer IDs, addresses and numbers from an error text (evidence counters only).
+func errShape(s string) string {
+	var b strings.Builder
+	for _, f := range strings.Fields(s) {
+		if len(f) > 24 || strings.ContainsAny(f, "0123456789/") {
+			f = "_"
+		}
+		b.WriteString(f)
+		b.WriteByte(' ')
+	}
+	out := strings.TrimSpace(b.String())
+	if len(out) > 80 {
+		out = out[:80]
+	}
+	return out
+}
+
 func classifyErr(s string) string {
 	switch {
 	case strings.HasPrefix(s, "E:"):
@@ -599,6 +616,9 @@ func (sc *scenario) judge(sp spec, fired map[string]int) {
 			continue // Watch already exited the process otherwise
 		}
 		k.Count("outcome_"+o.Class, 1)
+		if o.Class == "other-error" {
+			k.Count("other_error:"+errShape(o.ErrStr), 1)
+		}
 		k.Count("handler_invocations", len(st.inv))
 		k.Count("select_entered(D)", len(st.dSeq))
 		wit := func() map[string]any {
@@ -679,7 +699,7 @@ func (sc *scenario) judge(sp spec, fired map[string]int) {
 				}
 			}
 			if allFast {
-				k.Count("retries_after_fast_handler_not_judged", 1)
+				k.Count("retries_after_fast_handler_not_judged:"+sp.stream, 1)
 			}
 		}
 
